@@ -19,3 +19,4 @@ CFG = dict(
                 "directories are named by the clock).",
      assumptions=["testing/synctest virtual time is correct", "the SPIFFE object's default real clock is virtual inside the bubble"],
      timeout_quick=600, timeout_thorough=3000)
+CFG["rule"] += ' Added after independently written breaking changes: Issuer answers also include ones the client must refuse (empty chain, no / non-SPIFFE / two URI SANs, trust-anchor failure).'
